@@ -3,7 +3,7 @@ import ast
 
 from sa.loader import AnalysisError, norm, walk_local
 from sa.cfg import cfg_of
-from .common import element_sources, ifexp_alternatives, analysis, names_in, str_consts_compared, isinstance_types, true_facts, conjuncts, ne_texts, eq_texts
+from .common import element_sources, ifexp_alternatives, analysis, names_in, str_consts_compared, isinstance_types, true_facts, conjuncts, ne_texts, eq_texts, tree_order
 from . import c17
 
 PROP = "C15"
@@ -44,9 +44,10 @@ def arity(m):
 def advanced(m):
     """grammar terminals a JSON codec method advances over: ['Int'], ['String', 'MapKeyMarker'], ..."""
     out = []
+    order = tree_order(m.node)
     for n in walk_local(m.node):
         if isinstance(n, ast.Call) and norm(n.func) == "self._parser.advance" and n.args and isinstance(n.args[0], ast.Call):
-            out.append((n.lineno, norm(n.args[0].func)))
+            out.append((order[id(n)], norm(n.args[0].func)))
     return [x for _, x in sorted(out)]
 
 
